@@ -8,10 +8,10 @@ property count.  Direct monitor of the property on the same kind of runs (harnes
 from .. import refine, runs
 
 MODULE = "PyhmsVerif.Props.C04"
-THEOREMS = []
-LEVEL = "exploration"
-LEVEL_TEXT = "Trace refinement against the Lean tree model plus the property's direct monitor on sampled real runs; theorems for this property not yet registered."
-LEVEL_NOTE = "Sampled runs only; model, tracer and monitors trusted."
+THEOREMS = ['C04.tree_best_mem', 'C04.tree_best_ge_all', 'C04.deme_best', 'C04.best_never_worse', 'Select.best_not_worse', 'Select.best_mem']
+LEVEL = 'proof'
+LEVEL_TEXT = 'Theorems, both directions, all reachable states: the tree best (and each deme best) is a member of the histories and at least as good as every stored individual; along every accepted event sequence the best never gets worse (histories are append-only). Tie: trace refinement (tree and deme bests are in every dump) + monitors incl. best-ever-observed and minimize() budget prefix sweeps.'
+LEVEL_NOTE = 'Trusted: Lean kernel + standard axioms; the hand-written tree / sprout model is tied to the code by trace refinement on sampled runs (every run is re-executed by the model; dumps and the output of every stage of the sprout mechanism are diffed); numerical engines, objective values, NumPy distances and user-defined stop-condition verdicts are environment; monitors trusted as failing-input search. The clause -reported best equals the best objective value ever observed (all engines but the local optimiser)- and the budget-prefix clause are checked by monitors (recorder minimum at every boundary; twin minimize() runs with N1<N2), not stated as theorems.'
 TECHNIQUE = "trace refinement against the Lean tree model (Tree.step re-executes real runs) + direct monitors"
 RULE = "case = one traced run of a random configuration (1-3 levels, engine per level from the full list, every shipped GSC/LSC kind plus user-defined ones, both stock sprout mechanisms and user-composed chains, hibernation on/off, both directions, decimal boxes, optional cutoff/precision/stats wrappers, shared or per-level problems); non-trivial = run with >= 2 demes and >= 2 metaepochs; distinct by configuration hash"
 ASSUMPTIONS = ["objective is deterministic and never returns NaN", "runs are capped at 12 metaepochs by a user-level composite stop condition"]
